@@ -369,6 +369,28 @@ class Session:
             passed = dict(vals)
             self._last_passed_dict = passed
             call = lambda: self.bind[op["node"]].update_meta(passed, replace=bool(op.get("replace")))
+        elif k == "filterv":
+            verd = {int(u): v for u, v in op["verdicts"].items()}
+            outcome = m.filter_verdicts(self.mnode(op["node"]), verd)
+            by_real = {id(self.bind[u]): v for u, v in verd.items() if u in self.bind}
+            raise_form = bool(op.get("raise"))
+
+            def _pred(nd):
+                from nutree import SelectBranch, SkipBranch, StopTraversal
+
+                v = by_real.get(id(nd), "F")
+                if v == "T":
+                    return True
+                if v == "F":
+                    return False
+                if v == "N":
+                    return None
+                obj = {"K": SkipBranch(), "Z": SkipBranch(and_self=False), "S": SelectBranch(), "X": StopTraversal()}[v]
+                if raise_form:
+                    raise obj
+                return obj
+
+            call = lambda: self.real(op["node"]).filter(_pred)
         elif k == "filter":
             keep = set(op["keep"])
             outcome = m.filter(self.mnode(op["node"]), keep)
@@ -457,6 +479,14 @@ class Session:
         pre = self.ident_snapshot()
         pre_nodes = {u: (r, r.node_id) for u, r in self.bind.items()}
         self.log.append(self.describe(op))
+        self._src_ids_before = None
+        if op["op"] == "addnode" and op.get("deep") and op.get("src") in self.bind:
+            def _ids0(nd, depth=0):
+                return [nd.data_id, [_ids0(c, depth + 1) for c in nd.children]] if depth < 50 else []
+            try:
+                self._src_ids_before = _ids0(self.bind[op["src"]])
+            except Exception:
+                pass
         try:
             outcome, ret, exc = self.execute(op)
         except (KeyError, StopIteration) as e:
@@ -497,6 +527,20 @@ class Session:
                         if ret.data_id != want:
                             findings.append(Finding("C02:wrong_data_id", f"new node for data {op['data']!r} (explicit id {op.get('data_id')!r}) "
                                                                          f"reports data_id {ret.data_id!r}, the rule gives {want!r}"))
+                    except Exception:
+                        pass
+                if op["op"] == "addnode" and ret is not None and hasattr(ret, "data_id") and op["src"] in pre_nodes:
+                    # a copy carries the ids of its source, for the copied node and (deep) for all descendants
+                    def _ids(nd, depth=0):
+                        return [nd.data_id, [_ids(c, depth + 1) for c in nd.children]] if depth < 50 else []
+                    try:
+                        src_real = pre_nodes[op["src"]][0]
+                        got_ids = _ids(ret)
+                        want_ids = self._src_ids_before if op.get("deep") else [src_real.data_id, []]
+                        if op.get("deep") and want_ids is not None and got_ids != want_ids:
+                            findings.append(Finding("C02:wrong_data_id", f"deep copy carries data_ids {got_ids}, the source had {want_ids}"))
+                        elif not op.get("deep") and got_ids[0] != want_ids[0]:
+                            findings.append(Finding("C02:wrong_data_id", f"copy reports data_id {got_ids[0]!r}, the source has {want_ids[0]!r}"))
                     except Exception:
                         pass
                 errs += self.compare()
@@ -546,6 +590,9 @@ class Session:
                 if post != pre:
                     findings.append(Finding("C13:refusal_changed_state",
                                             f"refused call ({outcome.why}: {type(exc).__name__}: {exc}) changed the tree"))
+                    # the specification's effect of a refused call is "none": any change is also an undocumented effect
+                    findings.append(Finding("C04:refusal_effect",
+                                            f"a call that raised {type(exc).__name__} had an effect on the tree (parents, order, ids, count or meta changed)"))
                     followed = False
         else:  # unspecified
             followed = False
@@ -841,6 +888,11 @@ def _gen_kind(s, rng, k, nodes, hostile, allow_unspec):
             return None
         n = rng.choice(nodes)
         return {"op": "rename", "node": n.uid, "data": rng.choice("abcdefg")}
+    if k == "filter" and rng.random() < 0.5:
+        base = anyp()
+        sub = m.branch(s.mnode(base))[1:] if base != ROOT else nodes
+        verd = {str(x.uid): rng.choices("TFNKZSX", weights=[5, 4, 1, 2, 1, 2, 0.7])[0] for x in sub}
+        return {"op": "filterv", "node": base, "verdicts": verd, "raise": rng.random() < 0.5}
     if k == "filter":
         base = anyp()
         sub = m.branch(s.mnode(base))[1:] if base != ROOT else nodes
